@@ -59,6 +59,18 @@ Theorem C14_reset : forall NH : bytes -> list entry -> bytes,
 Proof. exact reset_then_collect. Qed.
 Print Assumptions C14_reset.
 
+(* A failed operation is not a change: whenever a guarded operation answers an
+   error (KeyError for a missing name, ValueError for a path through a leaf or
+   an assignment under a Content, AttributeError ...), the heap is exactly what
+   it was - no cached hash dropped, no collected flag cleared, no link touched -
+   so with C14_idempotent a collect that follows a collect of the same root,
+   with only failed operations in between, still reports nothing. *)
+Theorem C14_failed_op_is_noop : forall (NH : bytes -> list entry -> bytes) (s : heap) (o : op) (e : err),
+  InvA NH s -> guard NH true false s o ->
+  snd (step NH true false s o) = OutErr e -> fst (step NH true false s o) = s.
+Proof. exact failed_op_is_noop. Qed.
+Print Assumptions C14_failed_op_is_noop.
+
 (* Partial resets, arbitrary later collections.  [notcoll s x] = the collected
    flag of x is false; [quiet s1 h x] = no collect of history h (run from s1) is
    issued at a node that has x below it at that moment.
